@@ -515,3 +515,16 @@ func finish(c *Ctx, spec *propSpec, known []KnownFinding, evDir string, t0 time.
 		c.Prop, c.Tier, nObl, nDis, nKnown, nViol, nInfo, len(c.Rules), len(fns), time.Since(t0).Seconds())
 	return exit
 }
+
+var fileCache = map[string][]byte{}
+
+func readFileCached(name string) ([]byte, error) {
+	if b, ok := fileCache[name]; ok {
+		return b, nil
+	}
+	b, err := os.ReadFile(name)
+	if err == nil {
+		fileCache[name] = b
+	}
+	return b, err
+}
